@@ -149,6 +149,13 @@ theorem dra_execCmd {p : Pid} {w : World} (h : DeadRecA p w) (c : Cmd)
         have ha := dra_addAwait h (.proc z)
         refine ⟨dr_modProc_waiters ha.1 z _ (by simpa using hz) (fun _ => ⟨rfl, rfl, rfl, rfl⟩), ?_⟩
         simpa using ha.2
+  case timerAddOf z d sig =>
+    simp only [execCmd]
+    split
+    · exact h
+    · rename_i hz
+      have hz' : (w.proc z).status = .running := by simpa [isRunning] using hz
+      exact ⟨dr_timerAdd h.1 z d sig hz', by simpa using h.2⟩
   all_goals simp only [execCmd]
   all_goals dra_peel2 h 30
 
